@@ -23,7 +23,7 @@
 //   W <text>        structural invariant broken while threads are in flight (warning)
 //   X <text>        structural invariant broken at quiescence / query loop did not terminate
 //   LIVELOCK        threads still spinning after 200000 scheduler steps (process exits with code 3)
-#include "coop.h"
+#include "coop_bt.h"
 #include "souffle/datastructure/BTree.h"
 #include "souffle/datastructure/BTreeDelete.h"
 #include <algorithm>
@@ -138,7 +138,6 @@ struct Inspect {
         if (depth > 40) return "depth > 40 (cycle?)";
         int ne = (int)n->numElements;
         if (ne > M) return "node with " + std::to_string(ne) + " > maxKeys elements";
-        if (ne == 0 && parent) return "empty non-root node";
         if (n->parent != parent) return "parent pointer wrong at depth " + std::to_string(depth);
         if (parent && (int)n->position != pos) return "position field " + std::to_string((int)n->position) + " != " + std::to_string(pos);
         (void)deletable;
@@ -267,8 +266,10 @@ static std::vector<int> smallProbes(const std::vector<int>& keys) {
 }
 
 // ---------------------------------------------------------------- cooperative executions
+using Coop = CoopBt;
 static Coop* g = nullptr;
 static std::vector<const void*>* gObj = nullptr;
+static WorkerPool pool;
 static void coopYield(const char* pt, const void* obj) {
     if (g && Coop::me >= 0) {
         (*gObj)[Coop::me] = obj;
@@ -316,21 +317,19 @@ static bool runCoop(long& jobNo, const std::string& treeName, const std::vector<
     g = &coop;
     gObj = &obj;
     std::vector<std::string> events;
-    std::vector<std::thread> th;
-    for (int t = 0; t < n; t++)
-        th.emplace_back([&, t] {
-            coop.threadBody(t, [&, t] {
-                typename Tree::operation_hints hints;
-                for (int k : progs[t].keys) {
-                    coop.yield("op");
-                    events.push_back("V {\"e\":\"call\",\"t\":" + std::to_string(t + 1) + ",\"k\":" + std::to_string(k) + "}");
-                    bool r = progs[t].hints ? tree.insert(k, hints) : tree.insert(k);
-                    events.push_back("V {\"e\":\"ret\",\"t\":" + std::to_string(t + 1) + ",\"k\":" + std::to_string(k) + ",\"ok\":" +
-                                     (r ? "true" : "false") + "}");
-                }
+    pool.run(n, [&](int t) {
+        coop.threadBody(t, [&, t] {
+            typename Tree::operation_hints hints;
+            for (int k : progs[t].keys) {
                 coop.yield("op");
-            });
+                events.push_back("V {\"e\":\"call\",\"t\":" + std::to_string(t + 1) + ",\"k\":" + std::to_string(k) + "}");
+                bool r = progs[t].hints ? tree.insert(k, hints) : tree.insert(k);
+                events.push_back("V {\"e\":\"ret\",\"t\":" + std::to_string(t + 1) + ",\"k\":" + std::to_string(k) + ",\"ok\":" +
+                                 (r ? "true" : "false") + "}");
+            }
+            coop.yield("op");
         });
+    });
     std::vector<int> sched;
     std::vector<char> blocked(n, 0);
     std::vector<std::string> prevPt(n, "");
@@ -442,8 +441,8 @@ static bool runCoop(long& jobNo, const std::string& treeName, const std::vector<
         std::fflush(stdout);
         _exit(3);
     }
+    pool.wait();
     g = nullptr;
-    for (auto& x : th) x.join();
     // quiescence: structure, then the query phase
     if (Inspect<Tree>::anyLocked(tree)) std::printf("X a lock is still write-held after all inserts returned: %s\n", Inspect<Tree>::shape(tree).c_str());
     {
